@@ -68,9 +68,21 @@ def writer_skeleton(F, rep, prop):
                   "WriteState::%s mutates the two copies differently: before swap %s, after swap %s (expected %s on each)" % (name, before, after, sorted(muts)), f.site())
         # each mutation happens under that side's lock (after the lock's success edge)
         for c in [x for x in f.calls if is_mut(x)]:
-            lk = [l for l in locks if f.dominates(l.bb, c.bb)]
-            rep.check(bool(lk) and pat.ok_edge(f, lk[-1]) is not None, "%s|%s-under-lock" % (name, c.name), "K1 must-pass-through",
-                      "%s runs after the side's lock was taken" % c.name, site=c.site())
+            # the lock of the *same* copy: taken in the same half of the protocol (before / after swap_offsets),
+            # and the mutated object is reached through that guard, never through inner_unsynchronized
+            after_swap = f.dominates(so[0].bb, c.bb)
+            lk = [l for l in locks if f.dominates(l.bb, c.bb) and f.dominates(so[0].bb, l.bb) == after_swap and l.bb != c.bb]
+            og = f.origins(c.args[0], through_calls=PASS_THROUGH + ("Deref::deref", "DerefMut::deref_mut", "BugExt::assume", "Result::ok", "raw_at", "ChanListData::raw_at", "get_mut", "Option::ok_or_else"))
+            via_guard = "call:lock" in og and "call:inner_unsynchronized" not in og
+            rep.check(bool(lk) and pat.ok_edge(f, lk[-1]) is not None and via_guard, "%s|%s-under-lock" % (name, c.name), "K1 must-pass-through",
+                      "%s runs on the guard of the lock taken for the same copy (%s swap_offsets)" % (c.name, "after" if after_swap else "before"),
+                      "WriteState::%s: %s on a channel-list copy is not performed through the guard of that copy's lock (taken in the same half of the update): "
+                      "a reader holding the lock can observe the bumped generation together with the not-yet-updated list and cache a key for a channel that is being removed" % (name, c.name),
+                      c.site())
+        uns = [c for c in f.calls if c.name == "inner_unsynchronized"]
+        rep.check(not uns, "%s|writer-never-unsynchronized" % name, "K3 who-may-call",
+                  "the writer reaches the channel lists only through their locks",
+                  "WriteState::%s accesses a channel-list copy through Mutex::inner_unsynchronized (%s)" % (name, ", ".join(c.site() for c in uns)), f.site())
     rep.floor("writer operations", n, 4)
 
 
